@@ -168,3 +168,29 @@ def render_sources(base, toggles, edits):
 
 def state_key(toggles):
     return "+".join(sorted(toggles)) if toggles else "base"
+
+
+REPO_INPUT_DIRS = ["runtime/pavex", "runtime/pavex_macros", "compiler/pavex_bp_schema", "compiler/persist_if_changed", "compiler/pavexc_attr_parser",
+                   "px_workspace_hack"]
+
+
+def repo_inputs_digest():
+    """Digest of the /repo sources the FIXTURE depends on through path dependencies (the pavex runtime and
+    the crates it pulls in). They are inputs of every pavexc execution (pavex's docs are part of the
+    analysis, its checksum is part of a cache key), so goldens are keyed by them and they must not
+    change while a batch runs."""
+    h = hashlib.sha256()
+    for d in REPO_INPUT_DIRS:
+        top = os.path.join(REPO, d)
+        for root, dirs, files in os.walk(top):
+            dirs[:] = sorted(x for x in dirs if x not in ("target", ".git", "tests", "examples"))
+            for fn in sorted(files):
+                if not (fn.endswith(".rs") or fn.endswith(".toml")):
+                    continue
+                p = os.path.join(root, fn)
+                try:
+                    data = open(p, "rb").read()
+                except OSError:
+                    continue
+                h.update(os.path.relpath(p, REPO).encode() + b"\0" + hashlib.sha256(data).digest())
+    return h.hexdigest()
